@@ -5,6 +5,7 @@ package c14
 import (
 	"errors"
 	"fmt"
+	"math"
 	"slices"
 	"sort"
 	"strconv"
@@ -31,6 +32,7 @@ func init() {
 			"stream `arena` (≈ 17 % of the cases): every slice argument (dst, s, s1, s2) is a window off:len:cap of ONE persistent arena in every relative layout (s2 a partial window of / equal to / straddling / adjacent to / disjoint from s1; dst nil, a prefix of s1 or s2, overlapping s2, running into s1, with small or spare capacity), sources with spare capacity holding other values; all ten set functions, Copy (often twice, then the caller appends to the source), SubSlice, Remove; after every call the whole arena is compared, the result is located by its data pointer (a window of the arena incl. spare capacity, or memory of its own) and a results ledger re-compares every earlier fresh result with its deep copy; " +
 			"35 % of the arena cases use element type float64 AND struct{F float64; Tag int} (header `arenaF`: NaN, -0, +0 among the cells; both instantiations must answer alike) incl. Equal / Index / Contains with the SAME window passed twice; " +
 			"stream `large` (≈ 1.3 % of the cases): 2–4 calls on slices of up to 2000 elements with 16…1500 distinct values from ranges up to 5000 and a controlled duplicate structure (every new value may be repeated at once, the last new values are repeated at the end) for Diff/Intersect/Unique/UniqueByKey (key counts around the distinct count)/Filter, their InPlace variants, all dst layouts, Chunk/ChunkProcess sizes around the length, Copy/SubSlice/Remove/Equal/Index/Values at the far end; stream `large-flex`: FlexSlice with capacities 200…5000 driven by bulk ops (appendn/prependn/popn/shiftn), Prepend batches of every size class relative to the capacity (fits in place, just too big, ≤1.25·cap, 1.25–2·cap, >2·cap), growth across runtime size classes, drains across cap/4 from large, refill; state compared by length, capacity and hashes of content and backing array; " +
+			"int-edge magnitudes (wave 8 B): in every stream each integer argument of SubSlice / Copy / Remove / Chunk / ChunkProcess and of FlexSlice Get / Remove / SubSlice is, with probability 10–25 %, one of MaxInt, MaxInt-1, MaxInt-len(+1), MaxInt-k, MinInt, MinInt+1, MinInt+k, ±2^62(±1), 2^32±1, ±2^31±1, MaxInt-2^32; argument pairs include start ≥ 1 with start+length = MaxInt+1+j (wraps to MinInt+j), = MaxInt exactly, both negative with sum MinInt-1, and pairs whose wrapped sum / difference lands inside 0..len+2; the oracle's 64-bit twin (IntOps.wrap64) executes the same arguments; " +
 			"non-trivial = a calls case with at least one aliased-dst or in-place call on a slice with duplicates, or a flex case with at least one reallocation (growth or shrink); distinct by hash of the case",
 		Classify: classify,
 		Parallel: true,
@@ -39,7 +41,7 @@ func init() {
 			{Name: "parallel-objects", Run: extraParallel},
 		},
 		Assumptions: []string{
-			"Go int treated as unbounded (no length near 2^63)",
+			"slice LENGTHS and capacities are far below the int range (len < MaxInt, 2·cap ≤ MaxInt: true of every slice of non-zero-size elements the runtime can allocate); integer ARGUMENTS range over the whole of int: c14_copy_nowrap / c14_remove_nowrap / c14_chunk_nowrap / c14_flex_nowrap prove that on every machine that is right when the exact result fits (in particular the 64-bit wrapping one) the index arithmetic equals the unbounded model",
 			"runtime growslice capacity rule for 8-byte elements (Go 1.20+: double below 256, size-class rounding) is used by the executable model only; the FlexSlice theorems hold for every growth function",
 			"FlexSlice.SubSlice sharing memory with its parent after later writes, and Prepend(v...) with v aliasing the receiver, are not claimed (DESIGN C14 MNV)",
 		},
@@ -585,6 +587,122 @@ func impl(c core.Case) []string {
 		})
 }
 
+
+// ---------------------------------------------------------------- int-edge magnitudes (wave 8 B)
+
+// edgeInt: a value at the edge of `int` (relative to a length n): every integer argument of
+// slicez gets these magnitudes, so that index arithmetic which forms a sum, a difference or a
+// negation BEFORE it clamps shows up as a wrong answer or a panic.
+func edgeInt(r *core.Rand, n int) int {
+	switch r.Intn(20) {
+	case 0, 1:
+		return math.MaxInt
+	case 2:
+		return math.MaxInt - 1
+	case 3:
+		return math.MaxInt - n
+	case 4:
+		return math.MaxInt - n + 1
+	case 5:
+		return math.MaxInt - r.Range(0, n+2)
+	case 6, 7:
+		return math.MinInt
+	case 8:
+		return math.MinInt + 1
+	case 9:
+		return math.MinInt + r.Range(0, n+2)
+	case 10:
+		return 1 << 62
+	case 11:
+		return 1<<62 + r.Range(-1, 1)
+	case 12:
+		return -(1 << 62)
+	case 13:
+		return 1<<32 + 1
+	case 14:
+		return 1<<32 - 1
+	case 15:
+		return 1<<32 + r.Range(-1, 1)
+	case 16:
+		return 1<<31 + r.Range(-1, 1)
+	case 17:
+		return -(1 << 31) + r.Range(-1, 1)
+	case 18:
+		return -(1 << 32) + r.Range(-1, 1)
+	}
+	return math.MaxInt - 1<<32
+}
+
+// edgePair: two integer arguments (start/length, start/end) of which at least one is at the edge
+// of int; a third of the pairs is built so that a+b passes MaxInt (or MinInt) by a chosen amount:
+// a in or near 0..n, b = MaxInt-a+1+j wraps to MinInt+j; b = MaxInt-a is the largest sum that fits.
+func edgePair(r *core.Rand, n int) (int, int) {
+	small := func() int { return r.Range(-2, n+2) }
+	switch r.Pick(22, 16, 12, 22, 10, 8, 10) {
+	case 0:
+		return small(), edgeInt(r, n)
+	case 1:
+		return edgeInt(r, n), small()
+	case 2:
+		return edgeInt(r, n), edgeInt(r, n)
+	case 3: // a + b = MaxInt + 1 + j  (a >= 1): wraps to MinInt + j
+		a := r.Range(1, n+2)
+		j := []int{0, 0, 1, n, a - 1}[r.Intn(5)]
+		if j > a-1 {
+			j = a - 1
+		}
+		return a, math.MaxInt - a + 1 + j
+	case 4: // the largest sum that does not wrap
+		a := r.Range(0, n+2)
+		return a, math.MaxInt - a
+	case 5: // both negative: a + b = MinInt - 1 - j wraps to MaxInt - j
+		a := -r.Range(1, n+2)
+		return a, math.MinInt - a - 1
+	}
+	// a + b wraps to a small value inside 0..n+2 (a difference b - a of two edge values does, too)
+	a := edgeInt(r, n)
+	return a, r.Range(0, n+2) - a
+}
+
+// isEdge: the magnitude class of an int-edge argument
+func isEdge(x int) bool { return x >= 1<<31-1 || x <= -(1<<31)+1 }
+
+func edgeLabel(op string, n int, args ...int) []string {
+	var ls []string
+	any := false
+	for _, x := range args {
+		switch {
+		case x == math.MaxInt:
+			ls = append(ls, op+" argument = MaxInt")
+		case x == math.MinInt:
+			ls = append(ls, op+" argument = MinInt")
+		case isEdge(x) && (x > math.MaxInt-n-3 || x < math.MinInt+n+3):
+			ls = append(ls, op+" argument within len of MaxInt/MinInt")
+		}
+		any = any || isEdge(x)
+	}
+	if any {
+		ls = append(ls, op+" with an int-edge argument")
+	}
+	if len(args) == 2 {
+		a, b := args[0], args[1]
+		if a > 0 && b > math.MaxInt-a {
+			if a < n {
+				ls = append(ls, op+" start in range and start+second argument > MaxInt")
+			} else {
+				ls = append(ls, op+" first+second argument > MaxInt")
+			}
+		}
+		if a < 0 && b < math.MinInt-a {
+			ls = append(ls, op+" first+second argument < MinInt")
+		}
+		if a > 0 && b == math.MaxInt-a {
+			ls = append(ls, op+" first+second argument = MaxInt exactly")
+		}
+	}
+	return ls
+}
+
 // ---------------------------------------------------------------- generator
 
 func genList(r *core.Rand) string {
@@ -634,6 +752,7 @@ func genCall(r *core.Rand) string {
 	l1, l2 := genList(r), genList(r)
 	n1 := listLen(l1)
 	idx := func() int { return r.Range(-2, n1+2) }
+	edge := r.Chance(18) // an integer argument at the edge of int (wave 8 B)
 	switch r.Pick(9, 9, 8, 6, 8, 6, 6, 5, 4, 5, 3, 3, 2, 2, 7, 7, 7, 6, 5, 3) {
 	case 0:
 		return fmt.Sprintf("diff %s ; %s ; %s", genDst(r, l1, l2, true), l1, l2)
@@ -679,15 +798,35 @@ func genCall(r *core.Rand) string {
 	case 13:
 		return fmt.Sprintf("contains %d ; %s", r.Range(0, 5), l1)
 	case 14:
-		return fmt.Sprintf("subslice %d %d ; %s", idx(), idx(), l1)
+		a, b := idx(), idx()
+		if edge {
+			a, b = edgePair(r, n1)
+		}
+		return fmt.Sprintf("subslice %d %d ; %s", a, b, l1)
 	case 15:
-		return fmt.Sprintf("copy %d %d ; %s", idx(), idx(), l1)
+		a, b := idx(), idx()
+		if edge {
+			a, b = edgePair(r, n1)
+		}
+		return fmt.Sprintf("copy %d %d ; %s", a, b, l1)
 	case 16:
-		return fmt.Sprintf("remove %d ; %s", idx(), l1)
+		a := idx()
+		if edge {
+			a = edgeInt(r, n1)
+		}
+		return fmt.Sprintf("remove %d ; %s", a, l1)
 	case 17:
-		return fmt.Sprintf("chunk %d ; %s", r.Range(-1, n1+2), l1)
+		a := r.Range(-1, n1+2)
+		if edge {
+			a = edgeInt(r, n1)
+		}
+		return fmt.Sprintf("chunk %d ; %s", a, l1)
 	case 18:
-		return fmt.Sprintf("chunkproc %d %d ; %s", r.Range(-1, n1+2), r.Range(0, 4), l1)
+		a := r.Range(-1, n1+2)
+		if edge {
+			a = edgeInt(r, n1)
+		}
+		return fmt.Sprintf("chunkproc %d %d ; %s", a, r.Range(0, 4), l1)
 	}
 	k := r.Range(0, 3)
 	ls := make([]string, k)
@@ -737,8 +876,16 @@ func genFlex(r *core.Rand) core.Case {
 			emit("prepend %s", vals(k))
 			size += k
 		case 2:
-			emit("get %d", r.Range(-2, size+2))
+			if r.Chance(12) {
+				emit("get %d", edgeInt(r, size))
+			} else {
+				emit("get %d", r.Range(-2, size+2))
+			}
 		case 3:
+			if r.Chance(10) { // an index at the edge of int: out of range, nothing removed
+				emit("remove %d", edgeInt(r, size))
+				break
+			}
 			if r.Chance(80) && size > 0 {
 				emit("remove %d", r.Range(0, size-1))
 			} else {
@@ -758,9 +905,20 @@ func genFlex(r *core.Rand) core.Case {
 				size--
 			}
 		case 6:
-			emit("sub %d %d", r.Range(-2, size+2), r.Range(-2, size+2))
+			if r.Chance(20) {
+				a, b := edgePair(r, size)
+				emit("sub %d %d", a, b)
+			} else {
+				emit("sub %d %d", r.Range(-2, size+2), r.Range(-2, size+2))
+			}
 		case 7:
 			a, b := r.Range(-1, size/2+1), r.Range(-2, size+2)
+			if r.Chance(12) {
+				b = edgeInt(r, size) // an end at the edge of int = "up to the end" (or empty below a)
+				if r.Chance(25) {
+					a = edgeInt(r, size)
+				}
+			}
 			emit("subset %d %d", a, b)
 			if b < 0 || b > size {
 				b = size
@@ -768,7 +926,7 @@ func genFlex(r *core.Rand) core.Case {
 			if a < 0 {
 				a = 0
 			}
-			if b-a >= 0 {
+			if b >= a {
 				size = b - a
 			} else {
 				size = 0
@@ -952,17 +1110,25 @@ func genLargeCalls(r *core.Rand, tier string) core.Case {
 			}
 			lines = append(lines, fmt.Sprintf("equal ; %s ; %s", l1, joinInts(e)))
 		case 11:
-			cs := []int{1, 2, 32, 33, 64, 256, n1 / 2, n1/2 + 1, n1 - 1, n1, n1 + 1, d}[r.Intn(12)]
+			cs := []int{1, 2, 32, 33, 64, 256, n1 / 2, n1/2 + 1, n1 - 1, n1, n1 + 1, d, edgeInt(r, n1)}[r.Intn(13)]
 			lines = append(lines, fmt.Sprintf("chunk %d ; %s", cs, l1))
 		case 12:
-			cs := []int{2, 33, 64, n1 / 3, n1 - 1, n1, n1 + 1}[r.Intn(7)]
+			cs := []int{2, 33, 64, n1 / 3, n1 - 1, n1, n1 + 1, edgeInt(r, n1)}[r.Intn(8)]
 			lines = append(lines, fmt.Sprintf("chunkproc %d %d ; %s", cs, r.Range(0, 4), l1))
 		case 13:
-			lines = append(lines, fmt.Sprintf("copy %d %d ; %s", []int{-1, 0, 1, near(n1 / 2), near(n1)}[r.Intn(5)], []int{-1, near(n1), near(n1 / 2), 33}[r.Intn(4)], l1))
+			a, b := []int{-1, 0, 1, near(n1 / 2), near(n1)}[r.Intn(5)], []int{-1, near(n1), near(n1 / 2), 33}[r.Intn(4)]
+			if r.Chance(25) {
+				a, b = edgePair(r, n1)
+			}
+			lines = append(lines, fmt.Sprintf("copy %d %d ; %s", a, b, l1))
 		case 14:
-			lines = append(lines, fmt.Sprintf("subslice %d %d ; %s", []int{-1, 0, near(n1 / 2), near(n1)}[r.Intn(4)], []int{-1, near(n1), near(n1 / 2)}[r.Intn(3)], l1))
+			a, b := []int{-1, 0, near(n1 / 2), near(n1)}[r.Intn(4)], []int{-1, near(n1), near(n1 / 2)}[r.Intn(3)]
+			if r.Chance(25) {
+				a, b = edgePair(r, n1)
+			}
+			lines = append(lines, fmt.Sprintf("subslice %d %d ; %s", a, b, l1))
 		case 15:
-			lines = append(lines, fmt.Sprintf("remove %d ; %s", []int{0, near(n1 / 2), n1 - 2, n1 - 1, n1}[r.Intn(5)], l1))
+			lines = append(lines, fmt.Sprintf("remove %d ; %s", []int{0, near(n1 / 2), n1 - 2, n1 - 1, n1, edgeInt(r, n1)}[r.Intn(6)], l1))
 		default:
 			if r.Bool() {
 				lines = append(lines, fmt.Sprintf("index %d ; %s", s1[len(s1)-1], l1))
@@ -1071,13 +1237,20 @@ func genLargeFlex(r *core.Rand, tier string) core.Case {
 				}
 			}
 		case 3:
-			emit("get %d", []int{-1, 0, size / 2, size - 1, size, size + 1}[r.Intn(6)])
+			emit("get %d", []int{-1, 0, size / 2, size - 1, size, size + 1, edgeInt(r, size)}[r.Intn(7)])
 		case 4:
-			if size > 0 {
+			if r.Chance(15) {
+				emit("remove %d", edgeInt(r, size)) // out of range: nothing removed
+			} else if size > 0 {
 				emit("remove %d", []int{0, size / 2, size - 1}[r.Intn(3)])
 				size--
 			}
 		case 5:
+			if r.Chance(20) {
+				a, b := edgePair(r, size)
+				emit("sub %d %d", a, b)
+				break
+			}
 			emit("sub %d %d", []int{-1, 0, size / 2, size - 3}[r.Intn(4)], []int{-1, size, size / 2, size/2 + 2}[r.Intn(4)])
 		case 6:
 			a, b := []int{0, size / 2, size - 3, size - 40}[r.Intn(4)], -1
@@ -1159,6 +1332,32 @@ func corpus() []core.Case {
 		// F17: Prepend with an argument aliasing the receiver, with room to spare and without
 		{Tag: "corpus-flex", Lines: []string{"@ C14 flex 8", "append 1 2 3", "prependw 1 2", "len", "get 0", "get 1", "prependw 0 2", "prependw 6 1", "prependw 3 9", "prependc 6 4", "prependc 0 20"}},
 		{Tag: "corpus-flex", Lines: []string{"@ C14 flex 3", "append 1 2 3", "prependw 1 2", "prependw 4 1", "pop", "prependw 2 2"}},
+		// wave 8 B: integer arguments at the edge of int.  Copy(s, 1, MaxInt) is the idiom "everything from index 1"
+		// (seed C14-I: start+length formed before the clamp wraps to MinInt); the other lines are the same class for
+		// every integer argument: a sum / difference / negation / increment formed before the comparison.
+		{Tag: "corpus", Lines: []string{"@ C14 calls",
+			"copy 1 9223372036854775807 ; 1 2 3", "copy 2 9223372036854775806 ; 1 2 3", "copy 2 9223372036854775807 ; 1 2 3 4 5",
+			"copy 0 9223372036854775807 ; 1 2 3", "copy 1 9223372036854775806 ; 1 2 3", "copy -1 9223372036854775807 ; 1 2 3",
+			"copy 9223372036854775807 1 ; 1 2 3", "copy 9223372036854775807 9223372036854775807 ; 1 2 3", "copy -9223372036854775808 -9223372036854775808 ; 1 2 3",
+			"copy -9223372036854775808 9223372036854775807 ; 1 2 3", "copy 1 -9223372036854775808 ; 1 2 3", "copy 1 4611686018427387904 ; 1 2 3", "copy 2 4294967297 ; 1 2 3",
+			"copy 9223372036854775805 3 ; 1 2 3", "copy -9223372036854775807 2 ; 1 2 3", "copy 1 9223372036854775807 ; nil",
+			"subslice 1 9223372036854775807 ; 1 2 3", "subslice -9223372036854775808 9223372036854775807 ; 1 2 3", "subslice 9223372036854775807 -9223372036854775808 ; 1 2 3",
+			"subslice 9223372036854775807 9223372036854775807 ; 1 2 3", "subslice 2 -9223372036854775808 ; 1 2 3", "subslice -9223372036854775807 1 ; 1 2 3", "subslice 3 9223372036854775807 ; 1 2 3",
+			"subslice 4294967297 2 ; 1 2 3", "subslice 1 4294967295 ; 1 2 3",
+			"remove 9223372036854775807 ; 1 2 3", "remove -9223372036854775808 ; 1 2 3", "remove 9223372036854775806 ; 1 2 3", "remove 4294967296 ; 1 2 3", "remove -4294967295 ; 1 2 3", "remove 9223372036854775807 ; nil",
+			"chunk 9223372036854775807 ; 1 2 3", "chunk -9223372036854775808 ; 1 2 3", "chunk 9223372036854775806 ; 1 2 3 4 5", "chunk 4611686018427387904 ; 1 2 3", "chunk 4294967297 ; 1 2", "chunk 9223372036854775807 ; nil",
+			"chunkproc 9223372036854775807 1 ; 1 2 3", "chunkproc -9223372036854775808 0 ; 1 2 3", "chunkproc 9223372036854775805 0 ; 1 2 3 4", "chunkproc 4294967295 2 ; 1 2 3",
+		}},
+		// the same on windows of one arena: the source has spare capacity behind it, so an index that wraps or is not
+		// clamped may stay inside the array (no panic) and show as a wrong window instead
+		{Tag: "corpus-arena", Lines: []string{"@ C14 arena 1 2 3 4 5 6 7 8 9 10 11 12",
+			"copy 1 9223372036854775807 2:4:8", "copy 2 9223372036854775806 2:4:8", "copy 3 9223372036854775807 0:4:12", "copy -9223372036854775808 9223372036854775807 2:4:8",
+			"copy 9223372036854775807 1 2:4:8", "copy 1 -9223372036854775808 2:4:8", "subslice 1 9223372036854775807 2:4:8", "subslice -9223372036854775808 -9223372036854775808 2:4:8",
+			"subslice 9223372036854775807 2 2:4:8", "subslice 4294967297 4294967299 2:4:8", "remove 9223372036854775807 2:4:8", "remove -9223372036854775808 2:4:8", "remove 4294967297 2:4:8", "remove 1 2:4:8"}},
+		{Tag: "corpus-flex", Lines: []string{"@ C14 flex 12", "append 1 2 3 4 5", "get 9223372036854775807", "get -9223372036854775808", "get 4294967296", "get 9223372036854775803",
+			"remove 9223372036854775807", "remove -9223372036854775808", "remove -4294967297", "len", "sub 1 9223372036854775807", "sub -9223372036854775808 9223372036854775807",
+			"sub 9223372036854775807 -1", "sub 2 -9223372036854775808", "sub 9223372036854775807 9223372036854775807", "subset 1 9223372036854775807", "len", "get 0",
+			"subset -9223372036854775808 4611686018427387904", "len", "subset 9223372036854775807 9223372036854775807", "len", "pop", "append 7", "get 0"}},
 		{Tag: "corpus-flex", Lines: []string{"@ C14 flex 40", "append 1 2 3 4 5 6 7 8 9 10 11", "pop", "prepend 20", "pop", "pop", "sub 0 3", "subset 2 6", "prepend 1 2 3 4 5 6 7 8 9", "shift"}},
 	}
 }
@@ -1821,6 +2020,16 @@ func classify(c core.Case, out []string) []string {
 			if o == "panic" {
 				ls = append(ls, "flex panic")
 			}
+			switch t[0] {
+			case "get", "remove", "sub", "subset":
+				var args []int
+				for _, x := range t[1:] {
+					if v, err := strconv.Atoi(x); err == nil {
+						args = append(args, v)
+					}
+				}
+				ls = append(ls, edgeLabel("flex "+t[0], prevLen, args...)...)
+			}
 			if !ok {
 				continue
 			}
@@ -1931,6 +2140,26 @@ func classify(c core.Case, out []string) []string {
 			}
 		case "chunkproc":
 			lab += " " + o[strings.LastIndex(o, " ")+1:]
+		}
+		switch h[0] { // int-edge magnitudes of the integer arguments (wave 8 B)
+		case "subslice", "copy", "remove", "chunk", "chunkproc":
+			n := 0
+			if len(gs) > 1 {
+				if s1, ok := parseList(gs[1]); ok {
+					n = len(s1)
+				}
+			}
+			var args []int
+			na := len(h) - 1
+			if h[0] == "chunkproc" {
+				na = 1
+			}
+			for _, t := range h[1 : 1+na] {
+				if v, err := strconv.Atoi(t); err == nil {
+					args = append(args, v)
+				}
+			}
+			ls = append(ls, edgeLabel(h[0], n, args...)...)
 		}
 		if o == "panic" {
 			lab += " PANIC"
